@@ -71,7 +71,14 @@ func checkAddr(c *addrCase) (key, msg, class string) {
 			if !bytes.Equal(l[3:35], lw[3:35]) {
 				return "address/legacy-digest-not-over-full-pk", fmt.Sprintf("pk with reserved byte %#02x: legacy address digest differs from SHA256(full pk)", pk[2]), ""
 			}
-			return "", "", "reserved-byte-set-digest-only"
+			// ... and whatever descriptor bytes the library chose, what it derived must be valid for its own scheme
+			if !xmss.IsValidLegacyXMSSAddress(l) {
+				return "address/legacy-own-invalid", fmt.Sprintf("pk with reserved byte %#02x: the derived legacy address %x is not accepted by IsValidLegacyXMSSAddress", pk[2], l), ""
+			}
+			if pk[0]>>4 == 0 && !xmss.IsValidXMSSAddress(a) {
+				return "address/xmss-own-invalid", fmt.Sprintf("pk with reserved byte %#02x: derived XMSS address %x is not valid for its own scheme", pk[2], a), ""
+			}
+			return "", "", "reserved-byte-set-digest-and-own-validity"
 		}
 		if want := codecref.XMSSAddress(pk[:]); a != want {
 			return "address/xmss-formula", fmt.Sprintf("GetXMSSAddressFromPK = %x, descriptor || SHAKE256(pk)[15:32] = %x", a, want), ""
